@@ -13,6 +13,7 @@ from ..core import hx
 from ..ref import wire, sym, grammar, sig as RS, armor
 from .. import pool, sigwork, encwork, gpgx
 
+W0_COUNTER = 'C20_message_exports'   # thorough tier: the repository's own tests run under this property's always-on monitor
 LEVEL = 'exploration'
 RULE = ('case = (content class, format, filename, time, compressor, signer list and order, equal/differing signature times, encryption stage, transport); one '
         'evaluation per export parsed + per import compared; non-trivial = at least one signer or a compressor or encryption; distinct = distinct case descriptors')
